@@ -425,9 +425,13 @@ def _sample(case, ctx, g):
     L = torch.stack(cols, -1)
     ctx.close("rsample_LLt", L @ L.transpose(-1, -2), C, "direct", cls=case["rep"])
     e = util.randn(g, 4, 3, *db, r)
+    e_keep = e.clone()
     got = d.rsample(base_samples=e)
-    ref = mean + (L @ e.unsqueeze(-1)).squeeze(-1)
+    ref = mean + (L @ e_keep.unsqueeze(-1)).squeeze(-1)
     ctx.close("rsample_linear", got, ref, "direct", cls=case["rep"])
+    # the caller's base samples come back unchanged (common random numbers: the same e is used again, here and elsewhere)
+    ctx.expect("base_samples_not_mutated", bool(torch.equal(e, e_keep)), "rsample(base_samples=e) changed e in place", rep=case["rep"])
+    ctx.close("rsample_linear", d.rsample(base_samples=e), ref, "direct", cls=case["rep"] + ":same_base_samples_again")
     ctx.expect("rsample_shape", tuple(d.rsample(torch.Size([3, 2])).shape) == (3, 2, *db, N), "rsample(sample_shape) shape")
     # successive draws are NEW draws: the base samples of consecutive calls are different numbers (and uncorrelated), so that
     # moments estimated over several calls can converge at all
